@@ -592,6 +592,9 @@ pub fn run_case(c: &Case) -> CaseResult {
             steps.push(s);
         }
         if let Some(e) = &out.err {
+            if std::env::var("C03_DEBUG").is_ok() {
+                eprintln!("ERR {} [{}] {}: {}", vname, kind_now, op_kind(cop), e.lines().last().unwrap_or("").chars().take(220).collect::<String>());
+            }
             if e.starts_with("STATE-CHANGED-ON-FAILURE") {
                 res.violations.push(("C03:failed-call-changed-state".into(), format!("{}: {:?}: {}", vname, cop, e)));
             }
@@ -803,9 +806,10 @@ fn burst(rng: &mut Rng, p: &Plan, v: &Variant, sp: &WlSpec, i: usize, ops: &mut 
             queue.push(*b);
         }
     }
-    // interleave
-    for k in (1..queue.len()).rev() {
-        let j = rng.below(k as u64 + 1) as usize;
+    // interleave (in the probes the first buyer runs into its own limit before a stage cap can bind)
+    let keep = if p.noise { 0 } else { (expected_ent(p, sp, i, order[0]) + 1).min(4) as usize };
+    for k in (keep + 1..queue.len()).rev() {
+        let j = keep + rng.below((k - keep) as u64 + 1) as usize;
         queue.swap(k, j);
     }
     for b in queue {
@@ -816,7 +820,7 @@ fn burst(rng: &mut Rng, p: &Plan, v: &Variant, sp: &WlSpec, i: usize, ops: &mut 
         }
         ops.push(honest_mint(v, sp, i, who, amt));
     }
-    if rng.chance(1, 2) {
+    if !p.noise || rng.chance(1, 2) {
         ops.push(honest_mint(v, sp, i, STRANGER, WL_PRICE));
     }
 }
@@ -1009,8 +1013,10 @@ fn probe_plans() -> Vec<(String, Plan)> {
             // stage limits differ; caps: stage 0 binds before the per-address limits do (cap < members * limit),
             // stage 1 has no cap, stage 2 cap equals one buyer's entitlement
             let limits = [l, 1 + l % 3, 1 + (l + 1) % 3];
-            let caps = if tiered { [Some(limits[0] + 1), None, Some(limits[2])] } else { [None; 3] };
-            let counts = [[limits[0], limits[0] % 3 + 1, 0], [limits[1], 0, limits[1] % 3 + 1], [limits[2], limits[2], limits[2]]];
+            let caps = if tiered { [Some(limits[0] + 1), Some(limits[1] + 1), Some(limits[2])] } else { [None; 3] };
+            // flex counts / Merkle allocations: three different figures per stage (none equal to all limits)
+            let cn = |x: u32| [x, x % 3 + 1, (x + 1) % 3 + 1];
+            let counts = [cn(limits[0]), cn(limits[1]), cn(limits[2])];
             v.push((
                 format!("probe:{}:{}", var.name, kind),
                 Plan {
@@ -1020,7 +1026,7 @@ fn probe_plans() -> Vec<(String, Plan)> {
                     limits,
                     caps,
                     counts,
-                    pal: 1 + (variant as u32 + k + 1) % 3,
+                    pal: if var.flex { 3 } else { 1 + (variant as u32 + k + 1) % 3 },
                     num_tokens: 30,
                     use_init: false,
                     swap: false,
@@ -1181,18 +1187,18 @@ fn incompatible_cases() -> Vec<Case> {
             let sp = WlSpec { kind: kind.into(), price: WL_PRICE, ibc: false, stages: if tiered { vec![mk(1000, 1300), mk(1300, 1600)] } else { vec![mk(1000, 1600)] } };
             let pm = |who: &str, amt: u128| if var.merkle { mintm(who, amt, None, None, None) } else { mint(who, amt) };
             let mut ops = vec![COp::MakeWl(sp.clone()), COp::Attach { who: CREATOR.into() }, at(1000, 0)];
-            for who in ["buyer1", "buyer1", "buyer1", "buyer2", "buyer2", "buyer3"] {
+            for who in ["buyer1", "buyer1", "buyer2", "buyer3"] {
                 ops.push(pm(who, WL_PRICE));
-                if var.merkle {
+                if var.merkle && who != "buyer2" {
                     ops.push(mintm(who, WL_PRICE, None, None, Some(5)));
                 }
             }
             ops.push(at(1300, 0));
-            for who in ["buyer1", "buyer1", "buyer2"] {
+            for who in ["buyer1", "buyer1"] {
                 ops.push(pm(who, WL_PRICE));
             }
             ops.push(at(START, 0));
-            for who in ["buyer1", "buyer1", "buyer1", "buyer2"] {
+            for who in ["buyer1", "buyer1", "buyer1"] {
                 ops.push(pm(who, PUB_PRICE));
             }
             v.push(Case { tag: format!("incompatible:{}:{}", var.name, kind), variant, num_tokens: 12, pal: 2, price: PUB_PRICE, start_in: START, init_wl: None, ops: ops.clone() });
